@@ -644,7 +644,7 @@ func (es *SearchEngineState) Copy() *SearchEngineState {
 		backtrack:         es.backtrack.Copy(),
 		variableStack:     es.variableStack.Copy(),
 		callStack:         es.callStack.Copy(),
-		environment:       es.environment,
+		environment:       es.environment.Copy().Hashmap(),
 		status:            es.status,
 		programCounter:    es.programCounter,
 		currentFileOffset: es.currentFileOffset,
